@@ -214,22 +214,26 @@ impl Sink {
 
 impl OutlineSink for Sink {
     fn move_to(&mut self, to: Vector2F) {
+        crate::util::tick();
         self.n += 1;
         self.out.push('M');
         self.v(to);
     }
     fn line_to(&mut self, to: Vector2F) {
+        crate::util::tick();
         self.n += 1;
         self.out.push('L');
         self.v(to);
     }
     fn quadratic_curve_to(&mut self, ctrl: Vector2F, to: Vector2F) {
+        crate::util::tick();
         self.n += 1;
         self.out.push('Q');
         self.v(ctrl);
         self.v(to);
     }
     fn cubic_curve_to(&mut self, ctrl: LineSegment2F, to: Vector2F) {
+        crate::util::tick();
         self.n += 1;
         self.out.push('C');
         self.v(ctrl.from());
@@ -237,6 +241,7 @@ impl OutlineSink for Sink {
         self.v(to);
     }
     fn close(&mut self) {
+        crate::util::tick();
         self.n += 1;
         self.out.push('Z');
     }
@@ -1458,11 +1463,14 @@ pub fn run_trace(
         let limit = STEP_BASE + STEP_PER_BYTE * (env.font_len as u64 + op.arg_len() as u64);
         allsorts::verif::reset();
         allsorts::verif::set_step_limit(limit);
+        crate::util::reset_ticks(limit);
         let mut extra = Extra::default();
         let result = guard(|| world.exec(op, &mut extra));
         let steps = allsorts::verif::steps();
         let rejections = allsorts::verif::eof_rejections();
         allsorts::verif::set_step_limit(u64::MAX);
+        let steps = steps + crate::util::ticks();
+        crate::util::reset_ticks(u64::MAX);
         stats.add("steps", steps);
         stats.add("eof_rejections", rejections);
         stats.bump(&format!("op.{}", op.kind()));
